@@ -134,6 +134,7 @@ structure Cfg where
   maxSize : Option Nat      -- SIZE extension parameter
   immediateTls : Bool := false
   custom : List Bytes := []   -- commands the handler object has a method for (upper-case names)
+  session : Bool := false   -- the handler object is edge/smtp.py's SmtpSession: its RSET consults no validator and it has no NOOP / QUIT method, so these three never see a verdict
 deriving Repr, DecidableEq
 
 structure St where
@@ -151,6 +152,7 @@ structure St where
   sessEhlo : Option Bytes := none
   ncb : Nat := 0                          -- number of validator-visible callbacks made so far
   custom : List Bytes := []
+  session : Bool := false
 deriving Repr, DecidableEq
 
 inductive Cb
@@ -309,18 +311,18 @@ def stepData (v : Verdicts) (s : St) (arg : Option Bytes) : St × List Event × 
 def stepRset (v : Verdicts) (s : St) (arg : Option Bytes) : St × List Event × Next :=
   if arg.isSome then (s, [.reply 501], .continue_)
   else
-    let (s1, evs, code) := callback v s .rset 250
+    let (s1, evs, code) := if s.session then (s, [Event.cb .rset], 250) else callback v s .rset 250
     let s2 := if code == 250 then { s1 with haveMail := .unset, haveRcpt := .unset } else s1
     finish { s2 with envelope := none } evs code
 
 def stepNoop (v : Verdicts) (s : St) : St × List Event × Next :=
-  let (s1, evs, code) := callback v s .noop 250
+  let (s1, evs, code) := if s.session then (s, [Event.cb .noop], 250) else callback v s .noop 250
   finish s1 evs code
 
 def stepQuit (v : Verdicts) (s : St) (arg : Option Bytes) : St × List Event × Next :=
   if arg.isSome then (s, [.reply 501], .continue_)
   else
-    let (s1, evs, code) := callback v s .quit 221
+    let (s1, evs, code) := if s.session then (s, [Event.cb .quit], 221) else callback v s .quit 221
     finish s1 evs code
 
 /-- `_command_custom` for a command the handler object has a method for: the handler gets a private
@@ -352,7 +354,9 @@ def step (v : Verdicts) (s : St) (cmd : Option (Bytes × Option Bytes)) : St × 
 /-- After the message data was read: HAVE_DATA, reply, forget the transaction. -/
 def afterData (v : Verdicts) (s : St) (content : Option Bytes) : St × List Event × Next :=
   let dflt := if content.isNone then 552 else 250
-  let (s1, evs, code) := callback v s (.haveData content) dflt
+  -- SmtpSession.HAVE_DATA answers MessageTooBig before it would ask the validators: no verdict is consumed then
+  let (s1, evs, code) := if s.session && content.isNone then (s, [Event.cb (.haveData content)], dflt)
+                         else callback v s (.haveData content) dflt
   -- MessageTooBig is answered by the session without consulting the validators: the verdict is ignored
   let code' := if content.isNone then 552 else code
   let s2 := { s1 with haveMail := .unset, haveRcpt := .unset, envelope := none }
@@ -364,7 +368,7 @@ def afterTls (s : St) : St × List Event :=
             envelope := none, sessEhlo := none }, [.cb .tlsHandshake])
 
 def initSt (cfg : Cfg) : St :=
-  { extTls := cfg.startTls, extAuth := cfg.auth, extSize := cfg.maxSize, encrypted := cfg.immediateTls, custom := cfg.custom }
+  { extTls := cfg.startTls, extAuth := cfg.auth, extSize := cfg.maxSize, encrypted := cfg.immediateTls, custom := cfg.custom, session := cfg.session }
 
 /-- `_command_BANNER_` -/
 def banner (v : Verdicts) (s : St) : St × List Event × Next :=
